@@ -206,6 +206,101 @@ theorem nodata_nsec_sound (z : Zone) (hz : z.WF) (s : List Nsec) (hs : SetOK z s
     (h : verifyNODATANSEC q t (filterToZone z.apex s) = .ok ()) : z.answerClass q t = .nodata :=
   nodata_core hz (filter_genuine hz hs) hq t h
 
+/-! ## DNAME rewriting of the denied name (`dnsutil.DnameTarget`) -/
+
+/-- **A DNAME rewrites only names strictly below its owner, label by label**
+(RFC 6672 §2.2): the first DNAME of the answer section decides; the owner
+itself, siblings, and names whose text merely ends in the owner's are left
+alone; the result is the target with the labels below the owner kept. -/
+theorem dname_rewrites_only_below (q : Name) (ds : List (Name × Name)) (t : Name)
+    (h : dnameTarget q ds = some t) :
+    ∃ o tg rest more, ds = (o, tg) :: more ∧ o ≠ [] ∧ rest ≠ [] ∧ q = o ++ rest ∧ t = tg ++ rest := by
+  unfold dnameTarget at h
+  split at h
+  · cases h
+  · rename_i o tg more
+    split at h
+    · cases h
+    · rename_i h1
+      split at h
+      · cases h
+      · rename_i h2
+        simp only [Option.some.injEq] at h
+        simp only [Bool.or_eq_true, decide_eq_true_eq, not_or, Nat.not_le] at h1
+        have hp : o <+: q := List.isPrefixOf_iff_prefix.mp (by simpa using h2)
+        obtain ⟨rest, rfl⟩ := hp
+        refine ⟨o, tg, rest, more, rfl, ?_, ?_, rfl, ?_⟩
+        · intro e; exact h1.1 (by simp [e])
+        · intro e; subst e; simp at h1
+        · rw [← h]; simp
+
+-- x.d.e → x.other.t;  the owner d.e itself and the one-label look-alike "x.d" + e are not rewritten
+example : dnameTarget [[101], [100], [120]] [([[101], [100]], [[116], [111]])] = some [[116], [111], [120]] ∧
+    dnameTarget [[101], [100]] [([[101], [100]], [[116]])] = none ∧
+    dnameTarget [[101], [120, 46, 100]] [([[101], [100]], [[116]])] = none := by decide
+
+/-! ## wildcard-expanded positive answers (`VerifyWildcardAnswerForZoneWithWork`) -/
+
+theorem verifyWildcardNSEC_each {gs : List AnsSig} {s : List Nsec} {b : Bool}
+    (h : verifyWildcardNSEC gs s = .ok b) :
+    b = true ∧ ∀ g ∈ gs, g.labels < g.owner.length →
+      ∃ r ∈ s, nsecCovers r.owner r.next g.nextCloser = true ∧ nsecProvesENT r g.nextCloser = false := by
+  induction gs with
+  | nil =>
+    simp only [verifyWildcardNSEC, Except.ok.injEq] at h
+    exact ⟨h.symm, fun g hg => nomatch hg⟩
+  | cons g rest ih =>
+    unfold verifyWildcardNSEC at h
+    split at h
+    · rename_i hge
+      obtain ⟨h1, h2⟩ := ih h
+      refine ⟨h1, ?_⟩
+      intro x hx hlt
+      rcases List.mem_cons.mp hx with rfl | hx
+      · omega
+      · exact h2 x hx hlt
+    · split at h
+      · rename_i hany
+        obtain ⟨h1, h2⟩ := ih h
+        refine ⟨h1, ?_⟩
+        intro x hx hlt
+        rcases List.mem_cons.mp hx with rfl | hx
+        · obtain ⟨r, hr, hc⟩ := List.any_eq_true.mp hany
+          simp only [Bool.and_eq_true, Bool.not_eq_true'] at hc
+          exact ⟨r, hr, hc.1, hc.2⟩
+        · exact h2 x hx hlt
+      · cases h
+
+/-- **Every wildcard-expanded RRset needs its own denial, and the denial is
+real** (full strength).  If the answer is accepted over a selection of the
+genuine chain plus out-of-zone pollution, then for EVERY RRSIG whose Labels
+field is smaller than its owner's label count — each one separately, also
+when several share one closest encloser — the next closer name is not in the
+zone's tree: neither an owner nor an empty non-terminal.  So the zone has no
+closer match than the wildcard's parent (RFC 4035 §5.3.4, RFC 4592 §3.3.1),
+and in particular the RRSIG's owner does not exist.  (The empty-non-terminal
+half holds since /repo commit 697f61e.) -/
+theorem wildcard_answer_sound (z : Zone) (hz : z.WF) (s : List Nsec) (hs : SetOK z s)
+    (gs : List AnsSig) (b : Bool) (h : verifyWildcardNSEC gs (filterToZone z.apex s) = .ok b) :
+    b = true ∧ ∀ g ∈ gs, g.labels < g.owner.length →
+      z.inTree g.nextCloser = false ∧ g.nextCloser ∉ z.authNames := by
+  obtain ⟨h1, h2⟩ := verifyWildcardNSEC_each h
+  refine ⟨h1, ?_⟩
+  intro g hg hlt
+  obtain ⟨r, hr, hc, hent⟩ := h2 g hg hlt
+  have hnot : g.nextCloser ∉ z.authNames := fun hmem =>
+    (covers_inGap hz (filter_genuine hz hs r hr) (auth_in_zone hz hmem) hc).not_auth hmem
+  refine ⟨?_, hnot⟩
+  cases hin : z.inTree g.nextCloser with
+  | false => rfl
+  | true =>
+    exfalso
+    obtain ⟨hzone, _⟩ := (inTree_iff hz _).mp hin
+    have gap := covers_inGap hz (filter_genuine hz hs r hr) hzone hc
+    unfold Zone.inTree at hin
+    rw [gap.find_none, gap.not_ent hz hzone (by unfold nsecProvesENT at hent; exact hent)] at hin
+    cases hin
+
 /-! ### the former counter-witnesses (fixed in /repo by 4841eb0) are now refused -/
 
 def L (s : String) : Label := s.toList.map Char.toNat
@@ -252,6 +347,28 @@ example : wzone.answerClass [L "example", L "sub"] 1 = .delegated ∧
 example : erec ∈ ezone.chain ∧ ezone.answerClass [L "example", L "b"] 1 = .nodata ∧
     verifyNameErrorNSEC [L "example", L "b"] (filterToZone ezone.apex [erec]) = .error .missing ∧
     evaluateAggressiveNSEC [L "example", L "b"] 1 1 ezone.apex [erec] = .ok (.nodata, [0]) := by decide
+
+/-- `example.` with a wildcard, a host and `a.b.example.` (so `b.example.` is an empty non-terminal) -/
+def vzone : Zone :=
+  { apex := [L "example"], cls := 1,
+    nodes := [ { name := [L "example"], types := [2, 6, 46, 47, 48] },
+               { name := [L "example", L "*"], types := [1, 46, 47] },
+               { name := [L "example", L "www"], types := [1, 46, 47] },
+               { name := [L "example", L "b", L "a"], types := [1, 46, 47] } ] }
+
+-- two expanded RRsets sharing the closest encloser `example.`: the denial of `alias` does not carry `www`
+example : verifyWildcardNSEC [⟨[L "example", L "alias"], 1⟩, ⟨[L "example", L "www"], 1⟩]
+      (filterToZone vzone.apex vzone.chain) = .error .noDenial ∧
+    verifyWildcardNSEC [⟨[L "example", L "alias"], 1⟩, ⟨[L "example", L "alias"], 1⟩]
+      (filterToZone vzone.apex vzone.chain) = .ok true := by decide
+-- the former counter-witness (fixed by 697f61e): the next closer `b.example.` of `x.b.example.` is an empty
+-- non-terminal, the span that contains it is no denial
+example : verifyWildcardNSEC [⟨[L "example", L "b", L "x"], 1⟩] (filterToZone vzone.apex vzone.chain) = .error .noDenial ∧
+    vzone.inTree [L "example", L "b"] = true ∧ vzone.answerClass [L "example", L "b", L "x"] 1 = .nxdomain := by decide
+-- non-vacuity of `wildcard_answer_sound`: `alias.example.` really is a wildcard match
+example : vzone.inTree [L "example", L "alias"] = false :=
+  ((wildcard_answer_sound vzone (by constructor <;> decide) vzone.chain (fun _ hr => Or.inl hr)
+    [⟨[L "example", L "alias"], 1⟩] true (by decide)).2 _ (List.mem_singleton.mpr rfl) (by decide)).1
 
 /-! ### non-vacuity: the hypotheses of the theorems above are satisfiable -/
 
@@ -394,6 +511,56 @@ theorem nsec3_delegation_sound (H : HashFn) (records : List Nsec3) (signer d : N
                 exact ⟨k', m', nc, hcl, hcut.1, hcut.2, hnc, by simpa using hfl⟩
           · cases h
 
+/-- **NSEC3 NODATA from a matching record** (`VerifyNODATAForZoneWithWork`,
+RFC 5155 §8.5): whenever a record matches the question name's hash, the
+verdict is decided by that record alone — accepted (always as secure) only if
+its bitmap has neither the type nor CNAME, DS is not denied from an
+SOA-carrying (child-apex) record, and a delegation point's record (NS without
+SOA) denies nothing but DS.  With `hown` (the matching record is the one of a
+zone node `n`, which holds for genuine records when the hash does not collide
+on the question name) the denied type is really absent at that node. -/
+theorem nsec3_nodata_match_sound (H : HashFn) (records : List Nsec3) (signer q : Name) (t qclass : Nat)
+    (ring : Ring) (m : Entry3) (b : Bool)
+    (hprep : prepare records signer = .ok ring) (hm : findMatching H ring q = .ok m)
+    (h : verifyNODATA H records signer q t qclass = .ok b) :
+    b = true ∧ ring.cls = qclass ∧ t ∉ m.types ∧ tCNAME ∉ m.types ∧ (t = tDS → tSOA ∉ m.types) ∧
+    (t ≠ tDS → ¬(tNS ∈ m.types ∧ tSOA ∉ m.types)) ∧
+    (∀ n : Node, n.types = m.types → t ∉ n.types ∧ tCNAME ∉ n.types) := by
+  unfold verifyNODATA at h
+  rw [hprep] at h
+  simp only at h
+  split at h
+  · cases h
+  · rename_i hcls
+    rw [hm] at h
+    simp only at h
+    split at h
+    · cases h
+    · rename_i h1
+      split at h
+      · cases h
+      · rename_i h2
+        split at h
+        · cases h
+        · rename_i h3
+          simp only [Except.ok.injEq] at h
+          have h1' := (typesSet_pair_false m.types t tCNAME).mp (by simpa using h1)
+          refine ⟨h.symm, by simpa using hcls, h1'.1, h1'.2, ?_, ?_, fun n hn => hn ▸ ⟨h1'.1, h1'.2⟩⟩
+          · intro ht hs
+            apply h2
+            simp only [Bool.and_eq_true, beq_iff_eq]
+            exact ⟨ht, (typesSet_iff m.types [tSOA]).mpr ⟨tSOA, hs, by simp⟩⟩
+          · intro ht ⟨hns, hsoa⟩
+            apply h3
+            simp only [Bool.and_eq_true, bne_iff_ne, ne_eq, Bool.not_eq_true']
+            refine ⟨⟨ht, (typesSet_iff m.types [tNS]).mpr ⟨tNS, hns, by simp⟩⟩, ?_⟩
+            cases hs : typesSet m.types [tSOA] with
+            | false => rfl
+            | true =>
+              obtain ⟨x, hx, hx'⟩ := (typesSet_iff m.types [tSOA]).mp hs
+              simp only [List.mem_singleton] at hx'
+              exact absurd (hx' ▸ hx) hsoa
+
 /-- **`EvaluateAggressiveNSEC3` never fabricates an NXDOMAIN, for an arbitrary
 hash.**  If every record offered is genuine and the evaluator synthesises
 NXDOMAIN, the question name is not in the zone's tree: the evaluator found
@@ -415,6 +582,11 @@ def toyRec : Nsec3 :=
 example : verifyNameError (fun n => some (toyH n)) [toyRec] [L "z"] [L "z", L "a"] 1 = .ok true := by decide
 example : evaluateAggressiveNSEC3 (fun n => some (toyH n)) [L "z", L "a"] 1 1 [L "z"] [toyRec] = .ok (.nxdomain, [0]) := by
   decide
+-- non-vacuity of `nsec3_nodata_match_sound` / `nsec3_delegation_sound`: `z. A` is NODATA from the apex record
+example : verifyNODATA (fun n => some (toyH n)) [toyRec] [L "z"] [L "z"] 1 1 = .ok true ∧
+    (∃ ring m, prepare [toyRec] [L "z"] = .ok ring ∧ findMatching (fun n => some (toyH n)) ring [L "z"] = .ok m) := by
+  refine ⟨by decide, ?_⟩
+  exact ⟨{ zone := [L "z"], cls := 1, entries := [toEntry (0, toyRec)] }, toEntry (0, toyRec), by decide, by decide⟩
 example : RecGenuine [[L "z"]] [[L "z"]] toyH toyRec where
   gap := by
     intro oh nh h1 h2 n hn
@@ -530,6 +702,40 @@ theorem incomplete_is_not_denial :
     · cases h
     · rename_i p; exact ⟨p, rfl⟩
     · cases h
+
+/-- the background refresh publishes shared denial state under the same
+conditions as the response writer: unscoped entry, request CD = 0, no ECS
+(neither remembered nor present), response CD = 0, exact-response provenance,
+`Aggressive`; a cut only for NXDOMAIN. -/
+theorem prefetch_admission_guard (i : PrefetchIn) (h : prefetchAdmitted i = true ∨ prefetchCut i = true) :
+    i.entryScoped = false ∧ i.reqCD = false ∧ i.hadECS = false ∧ i.reqECSOpt = false ∧ i.respCD = false ∧
+    i.marked = true ∧ i.agg = true ∧ (prefetchCut i = true → i.nx = true) := by
+  have hadm : prefetchAdmitted i = true := by
+    rcases h with h | h
+    · exact h
+    · unfold prefetchCut at h; simp only [Bool.and_eq_true] at h; exact h.1
+  unfold prefetchAdmitted at hadm
+  simp only [Bool.and_eq_true, Bool.not_eq_true'] at hadm
+  obtain ⟨⟨⟨⟨⟨⟨h1, h2⟩, h3⟩, h4⟩, h5⟩, h6⟩, h7⟩ := hadm
+  refine ⟨h1, h2, h3, h4, h5, h6, h7, ?_⟩
+  intro hc; unfold prefetchCut at hc; simp only [Bool.and_eq_true] at hc; exact hc.2
+
+/-- **RFC 8020 stop only for aggressive, non-Opt-Out proofs**: resolution of a
+longer name is cut short at a minimised NXDOMAIN only when that NXDOMAIN was
+validated locally, reproduced by the RFC 8198 evaluator and rests on no
+Opt-Out span; combined with `optout_never_shared`, an Opt-Out based or merely
+exact-validated denial never prunes a subtree. -/
+theorem rfc8020_stop_guard (marked aggressive proofNX optOut : Bool)
+    (h : rfc8020Stop marked aggressive proofNX optOut = true) :
+    marked = true ∧ aggressive = true ∧ proofNX = true ∧ optOut = false := by
+  unfold rfc8020Stop at h
+  simp only [Bool.and_eq_true, Bool.not_eq_true'] at h
+  exact ⟨h.1.1.1, h.1.1.2, h.1.2, h.2⟩
+
+example : prefetchCut
+    { entryScoped := false, reqCD := false, hadECS := false, reqECSOpt := false, respCD := false,
+      marked := true, agg := true, nx := true } = true := by decide
+example : rfc8020Stop true true true false = true ∧ rfc8020Stop true true true true = false := by decide
 
 -- non-vacuity: an admissible write is recorded; one flipped guard is not
 example : proofRecorded
@@ -718,6 +924,19 @@ theorem authority_shape_pinned :
     SdnsVerif.Gen.C02.shape_aggressive_flag_from_evaluator = true ∧
     SdnsVerif.Gen.C02.shape_nsec3_aggressive_needs_secure = true ∧
     SdnsVerif.Gen.C02.shape_validator_error_returns_error = true := by
+  decide
+
+/-- shape of the two other places where a validated denial becomes shared
+state or prunes resolution (go/ast walk): the prefetch write-back's guard is
+the modelled `prefetchAdmitted` conjunction, both `RecordNXDomainCut` calls sit
+under `Proof.Rcode == NXDOMAIN` and `Aggressive`, and the RFC 8020 stop in
+`processAuthoritySection` is guarded by provenance ∧ Aggressive ∧ NXDOMAIN ∧
+¬HasNSEC3OptOut. -/
+theorem shared_state_shape_pinned :
+    SdnsVerif.Gen.C02.shape_prefetch_admission_guard = true ∧
+    SdnsVerif.Gen.C02.shape_prefetch_cut_needs_nxdomain = true ∧
+    SdnsVerif.Gen.C02.shape_writemsg_cut_needs_nxdomain = true ∧
+    SdnsVerif.Gen.C02.shape_rfc8020_stop_guard = true := by
   decide
 
 end SdnsVerif.Props.C02
